@@ -16,8 +16,9 @@
                                                 latch protocol of the repaired code, `Defects.none`).  In particular the
                                                 suspected "leaf scan vs. sibling rebalance" cycle does not exist: the scan
                                                 keeps the root read-latched, the writer needs the root write-latched first.
-  * `reader_writer_deadlock_free_any_defects`   the same with the shipped read latch, PROVIDED no scan re-latches a root
-                                                (every scanned table has more than one page)
+  * `reader_writer_deadlock_free_any_defects`   the same whatever the read latch, for well-formed shapes; with the shipped
+                                                (queueing) read latch no scan is well-formed — a scan latches the root
+                                                through two tree objects — so this covers lookups, descents and writes
   * `readLatchQueuesBehindWriter_witness`       shipped read latch: a scan of a ONE-page table ∥ one writer of that table
                                                 reaches a state with no enabled step (the second read latch of the scanning
                                                 thread queues behind the parked writer).  Observed on the real code and
@@ -62,10 +63,10 @@ def TreeOp.isWrite : TreeOp → Bool
   | _ => false
 
 /-- tree-shape hypothesis: the named pages belong to the tree of the named root (`rootOf p` = root of `p`'s tree); with
-    the shipped read latch (`D.readLatchQueuesBehindWriter`) a scan's leaves must moreover not be the root -/
+    the shipped read latch (`D.readLatchQueuesBehindWriter`) no scan is well-formed (it latches the root twice) -/
 def TreeOp.wf (D : Defects) (rootOf : Nat → Nat) : TreeOp → Bool
   | .descent _ => true
-  | .scan r _ leaves => leavesIn D rootOf r leaves
+  | .scan r path leaves => leavesIn D rootOf r path leaves
   | .search r path => pathIn rootOf r path
   | .write r path bal => writeIn rootOf r path bal
 
@@ -157,7 +158,7 @@ theorem guarded_threadProg {D : Defects} {rootOf : Nat → Nat} : ∀ ops : List
 
 /-- **Readers and writers together, whatever the read latch.**  Any number of threads, any mix of scans, lookups,
     descents and writes with any rebalancing, on any trees, provided the shapes are well-formed — which with the shipped
-    read latch includes that no scan's leaf is the root.  (The order in which a rebalancing writer visits siblings, the
+    read latch excludes scans.  (The order in which a rebalancing writer visits siblings, the
     parent's neighbours and frontier pages is arbitrary here; it does not matter because every one of those latches is
     taken under the write latch of the root, which a scan's iterator holds for reading during its whole life.) -/
 theorem reader_writer_deadlock_free_any_defects (D : Defects) (rootOf : Nat → Nat) (threads : List (List TreeOp))
@@ -190,16 +191,16 @@ def exScan : TreeOp := .scan 1 [2] [(2, 3), (3, 3), (4, 2)]
 
 def exWrite : TreeOp := .write 1 [3] [.touch 2, .touch 4, .touch 2, .touch 3, .touch 4, .alloc, .touch 5, .free 4]
 
-example : exScan.wf { readLatchQueuesBehindWriter := true } exRoot = true ∧ exWrite.wf Defects.none exRoot = true ∧
-    (TreeOp.search 1 [3]).wf Defects.none exRoot = true := by decide
+example : exScan.wf Defects.none exRoot = true ∧ exWrite.wf Defects.none exRoot = true ∧
+    exWrite.wf { readLatchQueuesBehindWriter := true } exRoot = true ∧ (TreeOp.search 1 [3]).wf Defects.none exRoot = true := by decide
 
 /-- a scan of a one-page table is well-formed under the repaired latch protocol -/
 example : (TreeOp.scan 1 [] [(1, 4)]).wf Defects.none (fun _ => 1) = true := by decide
 
-theorem leaf_scan_vs_sibling_rebalance_no_deadlock (D : Defects) (s : State)
-    (hr : Reachable D (init ([[exScan, .search 1 [3]], [exWrite], [exWrite, exScan]].map threadProg)) s) :
-    deadlocked D s = false :=
-  reader_writer_deadlock_free_any_defects D exRoot _ (by cases D with | mk b => cases b <;> decide) s hr
+theorem leaf_scan_vs_sibling_rebalance_no_deadlock (s : State)
+    (hr : Reachable Defects.none (init ([[exScan, .search 1 [3]], [exWrite], [exWrite, exScan]].map threadProg)) s) :
+    deadlocked Defects.none s = false :=
+  reader_writer_deadlock_free exRoot _ (by decide) s hr
 
 theorem reachable_runSched {D : Defects} {s0 : State} : ∀ (sched : List Nat) (s : State),
     Reachable D s0 s → Reachable D s0 (runSched D s sched)
